@@ -244,6 +244,16 @@ var boundary = [][]string{
 		"call u1 ra 5:ugnot 0 ps,k1,9",
 		"restrict 2",
 	},
+	{ // programs that must not compile: direct native calls, forged banker / realm values
+		"deploy u1 native -",
+		"deploy u1 xnative -",
+		"deploy u1 forge 5:ugnot",
+		"deploy u1 forgeconv -",
+		"deploy u1 fieldset -",
+		"deploy u1 realmforge -",
+		"deploy u1 forge 0:ugnot",
+		"deploy u1 zz -",
+	},
 	{ // bank sends
 		"send u1 u2 5:ugnot",
 		"send u2 u1 5005:ugnot",
